@@ -186,7 +186,7 @@ func checkC04(c *Ctx, w *World) {
 			construct := "scStates record insert"
 			okKey := x.Key == sc
 			okVal := isS(x.Value)
-			paired := rtCall != nil && everyPathHits(x, map[ssa.Instruction]bool{rtCall: true}) && !inLoop(rtCall)
+			paired := rtCall != nil && (everyPathHits(x, map[ssa.Instruction]bool{rtCall: true}) || everyWayHits(cs, x, rtCall)) && !inLoop(rtCall)
 			imp, wit := cs.Implies(cs.Reach(x), A("known"))
 			before := oldLookup != nil && dominatesInstr(oldLookup, x)
 			switch {
@@ -206,7 +206,7 @@ func checkC04(c *Ctx, w *World) {
 			if key == sc {
 				construct := "scStates delete(sc)"
 				imp, wit := cs.Implies(cs.Reach(x), cs.And(A("known"), A("sShutdown")))
-				paired := rtCall != nil && everyPathHits(x, map[ssa.Instruction]bool{rtCall: true})
+				paired := rtCall != nil && (everyPathHits(x, map[ssa.Instruction]bool{rtCall: true}) || everyWayHits(cs, x, rtCall))
 				c.check(imp && paired, "C04.pair", construct, p.ipos(x), "entry removed only on a Shutdown report of a known connection, and the transition is still recorded on every path",
 					"entry of the reported connection deleted outside a recorded Shutdown transition: "+wit)
 				// removal is final: nothing re-creates the entry later in the same call ("removed connections do not count")
@@ -696,4 +696,22 @@ func foldUint64(v ssa.Value, d int) (uint64, bool) {
 		}
 	}
 	return 0, false
+}
+
+// everyWayHits: every way from `from` to a return passes `target`, judged on conditions: no return that `from` may precede is
+// reachable together with `from` and without `target` (a structural path through `if !known { return }` is not a way when
+// known is true wherever `from` was executed).
+func everyWayHits(cs *CondSpace, from, target ssa.Instruction) bool {
+	if cs == nil || cs.err != "" || !mayPrecede(from, target) || inLoop(from) {
+		return false
+	}
+	for _, r := range returnsOf(from.Parent()) {
+		if !mayPrecede(from, r) {
+			continue
+		}
+		if cs.Satisfiable(cs.And(cs.Reach(from), cs.Reach(r), cs.Not(cs.Reach(target)))) {
+			return false
+		}
+	}
+	return true
 }
